@@ -27,6 +27,7 @@ import (
 	"path/filepath"
 	"sort"
 	"strings"
+	"sync"
 )
 
 // OverrideEnv names the environment variable holding a directory whose files shadow
@@ -241,8 +242,29 @@ func run(stage string, dir string, name string, args ...string) error {
 	return nil
 }
 
-// Build compiles the driver against the current felix/bpf-gpl sources.
+var (
+	buildMu    sync.Mutex
+	buildCache = map[string]*Built{}
+)
+
+// Build compiles the driver against the current felix/bpf-gpl sources.  Results are cached
+// per process (several test functions of one test binary share one native build).
 func Build(spec Spec) (*Built, error) {
+	buildMu.Lock()
+	defer buildMu.Unlock()
+	key := spec.Tag + "\x00" + spec.Driver + "\x00" + spec.DriverText + "\x00" + strings.Join(spec.Defines, ",")
+	if b, ok := buildCache[key]; ok {
+		return b, nil
+	}
+	b, err := build(spec)
+	if err != nil {
+		return nil, err
+	}
+	buildCache[key] = b
+	return b, nil
+}
+
+func build(spec Spec) (*Built, error) {
 	cdir, err := KitCDir()
 	if err != nil {
 		return nil, err
